@@ -992,7 +992,9 @@ func (ro *RedisOutput) sendCmdsBatch(replayWait usync.WaitCloser, conn client.Re
 			}
 		}
 
-		if shouldUpdateCP {
+		// lastOffset < 0 : no source position is known yet (nothing consumed since start),
+		// never overwrite a stored checkpoint with it
+		if shouldUpdateCP && lastOffset >= 0 {
 			if ro.cfg.EnableResumeFromBreakPoint {
 				if len(cmdQueue) > 0 {
 					lastCmd := cmdQueue[len(cmdQueue)-1]
